@@ -29,6 +29,12 @@ import FianoModel.Uefi.TotalAlloc
 import FianoModel.Uefi.TotalTie
 import FianoModel.Uefi.CodeTie   -- T1 code-as-code tie (wp-t1x): audited as a tie module of this check
 import FianoModel.Uefi.CodeTieTotal   -- T1 code-as-code tie (wp-t1x): audited as a tie module of this check
+import FianoModel.Uefi.TotalAsmTree
+import FianoModel.Uefi.TotalAsmTie
+import FianoModel.Uefi.TotalAsmEditSafe
+import FianoModel.Uefi.TotalAsmSamples
+import FianoModel.Uefi.TotalAsmAlloc
+import FianoModel.Uefi.TotalStepsTop
 
 namespace Fiano.Props.C05
 open Fiano GoM Fiano.Uefi Fiano.Uefi.Total
@@ -160,6 +166,202 @@ theorem walk_total_partial (d : Decoders) (hd : DecBounded d) (dd : Bool) (z : N
     Safe (validateG t m1) ∧ Safe (extractG t m1) :=
   ⟨validate_total t m1, post_safe (extractG_safe t (parse_wf d hd dd z bs hb m m' t h) m1)⟩
 
+/-! ### walk_total: assemble (follow-up wp-c05b)
+
+  `assembleG` (TotalAsm.lean) is the Go-semantics model of `(&visitors.Assemble{}).Run(tree)`: every slice /
+  index / make of `Assemble.Visit` and of the pkg/uefi functions it calls is a faulting primitive, a nil
+  dereference and `log.Fatalf` are faults too.  Buffers are *built* here (`append`, `make`): a result of 2^63
+  bytes or more does not fit a Go slice, the model then faults with the one site `hugeSite`.  `SafeA r` says:
+  `r` is a value, an ordinary error, or that address-space fault — never any other panic, never
+  `log.Fatalf`, never out of fuel.  Encoders are a parameter: any family of total functions. -/
+
+/-- a family of total compressors (`compression.CompressorFromGUID(g).Encode`), `none` = error -/
+abbrev Encoders := Guid → Option (Bytes → Option Bytes)
+
+theorem asmHooks_enc (enc : Encoders) (pp : UInt8) : EncOk (AsmHooksG.ofPure enc pp) := by
+  intro g f b m hf
+  simp only [AsmHooksG.ofPure, Option.map_eq_some_iff] at hf
+  obtain ⟨f0, _, hf⟩ := hf
+  subst hf
+  simp only []
+  split
+  · exact postA_of_post (post_bind (post_allocG (post_pure trivial)))
+  · exact postA_pure trivial
+
+theorem asmHooks_nvar (enc : Encoders) (pp : UInt8) : NvAsmOk (AsmHooksG.ofPure enc pp) :=
+  fun nv pol m => nvAsmHookG_post pp nv pol m
+
+/-- **assemble_total**: on every tree the parser returned — from any process state `st`, with any family of
+    total encoders, whatever erase polarity `pp` the NVAR stores of RAW files were parsed under — `Assemble`
+    returns a value or an ordinary error: never a slice / index panic, never a nil dereference, never
+    `log.Fatalf`, never out of fuel (up to `hugeSite`: a buffer of 2^63 bytes).  The assembled tree is
+    assemblable again. -/
+theorem assemble_total (d : Decoders) (hd : DecBounded d) (dd : Bool) (z : Nat) (bs : Bytes) (hb : bs.length < 2^63)
+    (m m' : Meter) (t : Tree) (h : parseG (hooksOf d dd) z bs m = .ok (t, m'))
+    (enc : Encoders) (pp : UInt8) (st : St) (m1 : Meter) :
+    SafeA (assembleG (AsmHooksG.ofPure enc pp) t st m1) :=
+  postA_safe (assembleG_post false _ (asmHooks_enc enc pp) (asmHooks_nvar enc pp) t st m1
+    (treeA_of_wf t (parse_wf d hd dd z bs hb m m' t h)))
+
+/-- the same for any tree that satisfies the structural invariant `TreeWf` (what `parse_wf` establishes) -/
+theorem assemble_total_wf (t : Tree) (hw : TreeWf t) (enc : Encoders) (pp : UInt8) (st : St) (m1 : Meter) :
+    SafeA (assembleG (AsmHooksG.ofPure enc pp) t st m1) :=
+  postA_safe (assembleG_post false _ (asmHooks_enc enc pp) (asmHooks_nvar enc pp) t st m1 (treeA_of_wf t hw))
+
+/-- **walk_total** (DESIGN §7-C05): on every tree the parser accepted, `validate`, `extract` and `assemble`
+    return (json / table have no slice / index / make at all: inventory theorems of TotalTie.lean) -/
+theorem walk_total (d : Decoders) (hd : DecBounded d) (dd : Bool) (z : Nat) (bs : Bytes)
+    (hb : bs.length < 2^63) (m m' : Meter) (t : Tree) (h : parseG (hooksOf d dd) z bs m = .ok (t, m'))
+    (enc : Encoders) (pp : UInt8) (st : St) (m1 : Meter) :
+    Safe (validateG t m1) ∧ Safe (extractG t m1) ∧ SafeA (assembleG (AsmHooksG.ofPure enc pp) t st m1) :=
+  ⟨validate_total t m1, post_safe (extractG_safe t (parse_wf d hd dd z bs hb m m' t h) m1),
+   assemble_total d hd dd z bs hb m m' t h enc pp st m1⟩
+
+/-! ### the step meter (follow-up wp-c05b): "never loops without consuming input", stated positively
+
+  `parseCost h nc z bs m : Cost` (TotalSteps*.lean) is defined by the same recursion on the fuel as the parser
+  models: `steps` = parser calls + iterations of the structural loops (sections of a file / of a decoded
+  payload, files of a volume, elements of a BIOS region, `_FVH` probes, NVAR entries, region-table entries),
+  `dec` = bytes the decoders returned, `blk` = block-map entries read.  The counting bodies compute the very
+  values of the models (`parse_steps_faithful`, proved by erasure), and the counter survives errors: the bounds
+  hold on *every* run — a tree, an ordinary error, or a fault.  Not steps: byte-level bulk work inside one step
+  (copy, checksum, IsErased, bytes.Index, name terminator search).  Not linear, and therefore kept apart in
+  `blk`: the block map of a nested volume is read again by every volume nested in it, Θ(depth·|bs|) like the
+  buffer copies of known finding C05-nested-copy (measured: reports/C05.md). -/
+
+/-- **parse_steps_linear**: `uefi.Parse` takes at most `3·(|bs| + decoded) + 17` steps on every run -/
+theorem parse_steps_linear (d : Decoders) (hd : DecBounded d) (dd : Bool) (z : Nat) (bs : Bytes) (hb : bs.length < 2^63)
+    (m : Meter) :
+    (parseCost (hooksOf d dd) nvarHookCost z bs m).steps ≤
+      3 * (bs.length + (parseCost (hooksOf d dd) nvarHookCost z bs m).dec) + 17 := by
+  have := parseCost_le (hooksOf d dd) nvarHookCost nvarHookCost_bd (hooksOf_codec d dd hd) (hooksOf_nvar d dd) z bs m hb
+  omega
+
+/-- the cost function counts the model's own run: erasing the counter from the counting body gives `parseWithG` -/
+theorem parse_steps_faithful (d : Decoders) (dd : Bool) (z : Nat) (bs : Bytes) (m : Meter) (k : Cost) :
+    (parseWithC (hooksOf d dd) nvarHookCost z bs {} m k).1 = parseWithG (hooksOf d dd) z bs {} m :=
+  parseCost_faithful _ _ z bs m k
+
+/-- **NewFirmwareVolume**: at most `2·(|bs| + decoded) + 2` steps -/
+theorem parseFv_steps_linear (d : Decoders) (hd : DecBounded d) (dd : Bool) (z : Nat) (bs : Bytes) (hb : bs.length < 2^63)
+    (off : Nat) (resizable : Bool) (st : St) (m : Meter) :
+    (newFvCost (hooksOf d dd) nvarHookCost z bs off resizable st m).steps ≤
+      2 * (bs.length + (newFvCost (hooksOf d dd) nvarHookCost z bs off resizable st m).dec) + 2 := by
+  have := newFvCost_le (hooksOf d dd) nvarHookCost nvarHookCost_bd (hooksOf_codec d dd hd) z bs off resizable st m hb
+  omega
+
+/-- **NewFile** on a non-empty buffer: at most `2·(|bs| + decoded)` steps -/
+theorem parseFile_steps_linear (d : Decoders) (hd : DecBounded d) (dd : Bool) (z : Nat) (bs : Bytes) (hb : bs.length < 2^63)
+    (h1 : 1 ≤ bs.length) (st : St) (m : Meter) :
+    (newFileCost (hooksOf d dd) nvarHookCost z bs st m).steps ≤
+      2 * (bs.length + (newFileCost (hooksOf d dd) nvarHookCost z bs st m).dec) := by
+  have := newFileCost_le (hooksOf d dd) nvarHookCost nvarHookCost_bd (hooksOf_codec d dd hd) z bs st m hb h1
+  omega
+
+/-- **NewSection** on a non-empty buffer: at most `2·(|bs| + decoded)` steps -/
+theorem parseSection_steps_linear (d : Decoders) (hd : DecBounded d) (dd : Bool) (z : Nat) (bs : Bytes)
+    (hb : bs.length < 2^63) (h1 : 1 ≤ bs.length) (order : Nat) (st : St) (m : Meter) :
+    (newSectionCost (hooksOf d dd) nvarHookCost z bs order st m).steps ≤
+      2 * (bs.length + (newSectionCost (hooksOf d dd) nvarHookCost z bs order st m).dec) := by
+  have := newSectionCost_le (hooksOf d dd) nvarHookCost nvarHookCost_bd (hooksOf_codec d dd hd) z bs order st m hb h1
+  omega
+
+/-- **NewNVarStore**: at most `2·|bs| + 1` steps, for every byte string and polarity — no hypothesis -/
+theorem parseNvarStore_steps_linear (pol : UInt8) (bs : Bytes) (m : Meter) :
+    (nvarStoreCost pol bs m {}).steps ≤ 2 * bs.length + 1 := by
+  have := (nvarStoreCost_le pol bs m {}).1
+  simpa using this
+
+/-! ### assemble after the edit operations (follow-up wp-c05b)
+
+  `runEditG` (TotalAsmEdit.lean) is one `utk <image> <ops…>` run: the edit operations of the shared model
+  Uefi/Visitors.lean (insert ×6, remove, remove_pad, replace_pe32, the read-only commands), every `save`
+  assembled by `assembleG`.  `OpOk op`: an inserted file is a node with a non-empty buffer.
+  `EmptyVolsOk t`: the volumes of `t` that hold no file have their data offset inside their buffer. -/
+
+/-- **edits_assemble_total**: from a tree the parser returned whose file-less volumes have `DataOffset ≤
+    len(buf)`, every sequence of modelled edit operations and saves — inserted files having non-empty buffers —
+    returns a value or an ordinary error at every step: no panic, no `log.Fatalf` (up to `hugeSite`). -/
+theorem edits_assemble_total (d : Decoders) (hd : DecBounded d) (dd : Bool) (z : Nat) (bs : Bytes)
+    (hb : bs.length < 2^63) (m m' : Meter) (t : Tree) (h : parseG (hooksOf d dd) z bs m = .ok (t, m'))
+    (hE : EmptyVolsOk t) (ops : List Op) (hops : ∀ op ∈ ops, OpOk op)
+    (enc : Encoders) (pp : UInt8) (st : St) (m1 : Meter) :
+    SafeA (runEditG (AsmHooksG.ofPure enc pp) ops { tree := t, st := st } m1) :=
+  postA_safe (runEditG_post _ (asmHooks_enc enc pp) (asmHooks_nvar enc pp) ops _ m1
+    ⟨treeA_strong t (parse_wf d hd dd z bs hb m m' t h) hE, rfl⟩ hops)
+
+/-! ### allocation of assemble (follow-up wp-c05b): the bound that holds, and the two that do not
+
+  On the model's meter (`make(n)` charges `n`, `append` the appended bytes).  The FirmwareVolume case is where
+  lengths read from the image drive allocations; what holds is a bound in the bytes in hand *plus the data
+  alignment each file header declares* (≤ 16 MiB) *plus the first block size of the block map* (a `uint32`):
+  the known findings C05-alignment-pad and C05-assemble-block-size are exactly the two extra terms — the
+  witnesses below show that neither can be replaced by a multiple of the bytes in hand. -/
+
+/-- one file placed by the file loop: at most the file, 7 bytes of padding and 8 × the declared alignment -/
+theorem asm_place_alloc (pol : UInt8) (buf : Bytes) (attrs : Nat) (fileBuf : Bytes) (m m' : Meter) (r : Bytes × Nat)
+    (hlt : buf.length < 2^63) (h : placeFileG pol buf buf.length attrs fileBuf m = .ok (r, m')) :
+    m'.alloc ≤ m.alloc + fileBuf.length + 7 + 8 * (if alignmentOf attrs = 1 then 0 else alignmentOf attrs) := by
+  have := placeFileG_alloc pol buf buf.length attrs fileBuf m rfl hlt
+  unfold Post' at this
+  rw [h] at this
+  exact this.2.2
+
+/-- the declared alignment is an entry of `fileAlignments`: a power of two, at most 16 MiB -/
+theorem alignment_le_16MiB (attrs : Nat) : alignmentOf attrs ≤ 16777216 := by
+  unfold alignmentOf
+  have hlt : (((attrs &&& 0x38) >>> 3) ||| ((attrs &&& 0x02) <<< 2)) < fileAlignments.length := by
+    have := alignIdx_lt attrs
+    have h16 : fileAlignments.length = 16 := by decide
+    omega
+  rw [List.getD_eq_getElem?_getD, List.getElem?_eq_getElem hlt]
+  simp only [Option.getD_some]
+  obtain ⟨k, hk, hak⟩ := fileAlignments_shape.2 _ (List.getElem_mem hlt)
+  rw [hak]
+  have : (2:Nat) ^ k ≤ 2 ^ 24 := Nat.pow_le_pow_right (by omega) (by omega)
+  omega
+
+/-- **the FirmwareVolume case** (`relayoutFvG`: file loop, out-of-space check, growth, fill, header patches) on a
+    volume buffer shorter than 2^63 whose first block size is a `uint32`: at most
+    `Σ_files (|file| + 7 + 8·alignment(file)) + 2·max(Length, Blocks[0].Size)` -/
+theorem asm_volume_alloc (i : FvInfo) (buf : Bytes) (files : List File) (st : St) (m m' : Meter)
+    (r : FvInfo × Bytes × St) (hb : buf.length < 2^63) (hbs : firstBlockSize i < 2^32)
+    (h : relayoutFvG i buf files st m = .ok (r, m')) :
+    m'.alloc ≤ m.alloc + placeCost (files.map (fun f => (f.info.attrs, f.buf))) + 2 * max i.length (firstBlockSize i) := by
+  have := relayoutFvG_alloc i buf files st m hb hbs
+  unfold Post' at this
+  rw [h] at this
+  exact this
+
+/-! ### NVAR entries and the ME partition table under the walkers (follow-up wp-c05b) -/
+
+/-- **NewNVarStore as a tree of nodes** (`*NVarStore` / `*NVar`, TotalNvarWalk.lean) is total: every byte
+    string, every polarity byte — no hypothesis -/
+theorem parseNvarTree_total (pol : UInt8) (bs : Bytes) (m : Meter) : Safe (newNvarTreeG pol bs m) :=
+  post_safe (newNvarTreeG_post pol bs m)
+
+/-- **validate / extract / assemble over NVAR nodes**: on every store `NewNVarStore` returned (under any
+    polarity `pol`), `Validate.Visit` (no case: children only), `Extract.Visit` (`f.Buf()[f.DataOffset:]`) and
+    `Assemble.Visit` (NVar: `f.Buf()[f.DataOffset:]`, `NVar.Assemble` with `*v.GUIDIndex`; NVarStore:
+    `make(GUIDStoreOffset-FreeSpaceOffset)`) under any polarity `pol'` return a value or an ordinary error -/
+theorem nvar_walk_total (pol : UInt8) (bs : Bytes) (m m' : Meter) (t : NvTree)
+    (h : newNvarTreeG pol bs m = .ok (some t, m')) (pol' : UInt8) (m1 : Meter) :
+    Safe (validateNvTreeG t m1) ∧ Safe (extractNvTreeG t m1) ∧ SafeA (asmNvTreeG pol' t m1) := by
+  have hw : NvTreeWf t := by
+    have := newNvarTreeG_post pol bs m
+    unfold Post at this
+    rw [h] at this
+    exact this
+  exact ⟨post_safe (validateNvTree_safe t m1), post_safe (extractNvTree_safe t hw m1),
+    postA_safe (asmNvTree_safe pol' t hw m1)⟩
+
+/-- the walkers have no case for `*uefi.MEFPT` and `MEFPT.ApplyChildren` returns nil (inventory theorems
+    `sites_MEFPT_Apply`, `sites_MEFPT_ApplyChildren`, `sites_MERegion_ApplyChildren`, `guards_MERegion_ApplyChildren`
+    of TotalAsmTie.lean): visiting the partition table `NewMEFPT` returned touches no buffer -/
+theorem mefpt_walk_total (bs : Bytes) (m m' : Meter) (f : MeFpt) (_ : newMeFptG bs m = .ok (f, m')) (m1 : Meter) :
+    Safe (validateMeFptG f m1) ∧ Safe (extractMeFptG f m1) ∧ Safe (asmMeFptG f m1) :=
+  ⟨safe_pure _ _, safe_pure _ _, safe_pure _ _⟩
+
 /-! ### non-vacuity -/
 
 /-- a family of total decoders satisfying `DecBounded`: a "stored" codec for the LZMA GUID that returns
@@ -201,5 +403,118 @@ example : (match newNvarStoreG 0xFF [0x4E, 0x56, 0x41, 0x52, 5, 0, 0xFF, 0xFF, 0
     | .ok (none, _) => true | _ => false) = true := by decide
 example : (match newNvarStoreG 0xFF [0x4E, 0x56, 0x41, 0x52, 0, 0, 0xFF, 0xFF, 0xFF, 0x82, 0, 0] {} with
     | .ok (none, _) => true | _ => false) = true := by decide
+
+/-! ### follow-up wp-c05b: assemble — non-vacuity, and the witnesses for the hypotheses of `edits_assemble_total`
+
+  (`decide +kernel`: the kernel evaluates the models on 128-byte volumes; axioms propext, Quot.sound only) -/
+
+open Fiano.Uefi.Total.Samples in
+/-- `assembleG` on the parsed 128-byte volume returns a tree whose root buffer has 128 bytes again -/
+example : (match parseWithG (hooksOf storedDecoders false) 1 vol128 {} {} with
+    | .ok ((t, st), _) =>
+      (match assembleG (AsmHooksG.ofPure (fun _ => none) 0xFF) t st {} with
+       | .ok ((t', _), _) => decide (t'.buf.length = 128)
+       | .error _ => false)
+    | .error _ => false) = true := by decide +kernel
+
+def isFatal {α} : Except Fault α → Bool
+  | .error (.panic s) => s.startsWith "log.Fatalf"
+  | _ => false
+
+def isPanicAt {α} (site : String) : Except Fault α → Bool
+  | .error (.panic s) => s == site
+  | _ => false
+
+/-- any volume -/
+def anyFv : Pred := { fv := fun _ => true }
+
+open Fiano.Uefi.Total.Samples in
+/-- `OpOk` is needed: a 24-byte blob whose size field is 0 parses (`NewFile`) to a file with an **empty buffer**;
+    inserted in front of `vol128`'s file, the next `Assemble` ends in `log.Fatalf` (reproduced on the real code:
+    `utk vol insert_front <sel> blob save` exits) -/
+example : (match parseWithG (hooksOf storedDecoders false) 1 vol128 {} {},
+                 newFileG (hooksOf storedDecoders false) 1 (fileA.take 20 ++ [0, 0, 0, 0xF8]) {} {} with
+    | .ok ((t, st), _), .ok ((some nf, _), _) =>
+      (match insertOp anyFv .front nf t with
+       | .ok t' => nf.buf.length == 0 && isFatal (assembleG (AsmHooksG.ofPure (fun _ => none) 0xFF) t' st {})
+       | .error _ => false)
+    | _, _ => false) = true := by decide +kernel
+
+open Fiano.Uefi.Total.Samples in
+/-- `EmptyVolsOk` is needed: `vol128NoFiles` parses (no file, `HeaderLen = 0xFFF8`, so `DataOffset` is beyond
+    the 128-byte buffer) and assembles; after `fileA` is inserted into it, `Assemble` slices
+    `fBuf[:f.DataOffset]` (reproduced on the real code: `slice bounds out of range [:65528] with capacity 4096`) -/
+example : (match parseWithG (hooksOf storedDecoders false) 1 vol128NoFiles {} {},
+                 newFileG (hooksOf storedDecoders false) 1 fileA {} {} with
+    | .ok ((t, st), _), .ok ((some nf, _), _) =>
+      (match assembleG (AsmHooksG.ofPure (fun _ => none) 0xFF) t st {}, insertOp anyFv .front nf t with
+       | .ok _, .ok t' =>
+         isPanicAt "Assemble.Visit: fBuf[:f.DataOffset]" (assembleG (AsmHooksG.ofPure (fun _ => none) 0xFF) t' st {})
+       | _, _ => false)
+    | _, _ => false) = true := by decide +kernel
+
+open Fiano.Uefi.Total.Samples in
+/-- … and with the hypotheses an insertion is harmless: a second `fileA` in front of `vol128`'s file does not
+    fit the 56 bytes of file space — `Assemble` answers with the ordinary error "out of space"; removing the
+    file instead assembles to 128 bytes -/
+example : (match parseWithG (hooksOf storedDecoders false) 1 vol128 {} {},
+                 newFileG (hooksOf storedDecoders false) 1 fileA {} {} with
+    | .ok ((t, st), _), .ok ((some nf, _), _) =>
+      (match insertOp anyFv .front nf t, removeOp { file := fun _ => true } false st.pol t with
+       | .ok t', .ok t'' =>
+         faultIsErr (assembleG (AsmHooksG.ofPure (fun _ => none) 0xFF) t' st {}) &&
+         (match assembleG (AsmHooksG.ofPure (fun _ => none) 0xFF) t'' st {} with
+          | .ok ((t3, _), _) => decide (t3.buf.length = 128)
+          | .error _ => false)
+       | _, _ => false)
+    | _, _ => false) = true := by decide +kernel
+
+/-! ### follow-up wp-c05b: witnesses for the two allocation findings of assemble -/
+
+def allocOf {α} : Except Fault (α × Meter) → Nat
+  | .ok (_, m) => m.alloc
+  | .error _ => 0
+
+def isOrdinaryErr {α} : Except Fault α → Bool
+  | .error .err => true
+  | _ => false
+
+open Fiano.Uefi.Total.Samples in
+/-- **witness for C05-alignment-pad**: placing the 32-byte `fileA` behind the 72-byte header of `vol128` costs 32
+    bytes — and 11 984 bytes (115 × the 104 bytes in hand) when its attribute byte asks for a 4 KiB data
+    alignment; the same volume, parsed, then makes `Assemble` answer "out of space" — after the pad file was built -/
+example : allocOf (placeFileG 0xFF (vol128.take 72) 72 0x00 fileA {}) = 32 ∧
+    allocOf (placeFileG 0xFF (vol128.take 72) 72 0x28 fileA {}) = 11984 ∧
+    (match parseWithG (hooksOf storedDecoders false) 1 vol128Align4K {} {} with
+     | .ok ((t, st), _) => isOrdinaryErr (assembleG (AsmHooksG.ofPure (fun _ => none) 0xFF) t st {})
+     | .error _ => false) = true := by decide +kernel
+
+/-- a resizable (nested) 128-byte volume whose re-laid files take 136 bytes, with first block size `bs` -/
+def grownVolume (bs : Nat) : FvInfo :=
+  { fsGuid := guidFFS2, length := 128, signature := 0x4856465F, attrs := 0x0004FEFF, headerLen := 72, checksum := 0,
+    extHeaderOffset := 0, reserved := 0, revision := 2, blocks := [⟨1, bs⟩], fvName := guidZero, extHeaderSize := 0,
+    dataOffset := 72, fvOffset := 0, resizable := true, freeSpace := 0 }
+
+/-- **witness for C05-assemble-block-size**: the same 136 bytes, the same 128-byte volume — the allocation is twice
+    the distance to the next multiple of the block size the block map claims: 112 bytes for 64-byte blocks,
+    7 920 bytes for 4 KiB blocks -/
+example : allocOf (finishFvG (grownVolume 64) (List.replicate 136 0) {} {}) = 112 ∧
+    allocOf (finishFvG (grownVolume 4096) (List.replicate 136 0) {} {}) = 7920 := by decide +kernel
+
+/-- the step meter on the 128-byte volume: 5 steps (element loop ×2, volume, file loop ×2 … ), 2 block-map reads -/
+example : (let c := parseCost (hooksOf storedDecoders false) nvarHookCost 1 Fiano.Uefi.Total.Samples.vol128 {}
+    decide (0 < c.steps ∧ c.steps ≤ 3 * 128 + 17 ∧ c.blk = 2 ∧ c.dec = 0)) = true := by decide +kernel
+
+/-- an NVAR store with one valid entry (ASCII name "N", GUID index 0) and an erased tail: it parses to a tree
+    of nodes, and `Assemble` over it rebuilds a buffer of the same 48 bytes -/
+def sampleNvar : Bytes :=
+  [0x4E, 0x56, 0x41, 0x52, 14, 0, 0xFF, 0xFF, 0xFF, 0x82, 0, 0x4E, 0, 7] ++ List.replicate 34 0xFF
+
+example : (match newNvarTreeG 0xFF sampleNvar {} with
+    | .ok (some t, _) =>
+      (match asmNvTreeG 0xFF t {} with
+       | .ok (t', _) => t.nodes.length == 1 && decide (t'.s.buf.length = 48)
+       | .error _ => false)
+    | _ => false) = true := by decide +kernel
 
 end Fiano.Props.C05
